@@ -146,3 +146,18 @@ package eventloop
 //@   ensures [ordinary-after] forall m int :: {old(el.handlers[typeof(event)][m])} 0 <= m && m < old(len(el.handlers[typeof(event)])) && old(hmatch(el.handlers[typeof(event)], m, runningInAddEvent)) && !old(el.handlers[typeof(event)][m].opts.priority) ==> traceat(cb, 0, old(tracelen(cb)) + old(pcnt(el.handlers[typeof(event)], len(el.handlers[typeof(event)]), runningInAddEvent)) + old(ncnt(el.handlers[typeof(event)], m, runningInAddEvent))) == old(el.handlers[typeof(event)][m].callback) && traceat(cb, 1, old(tracelen(cb)) + old(pcnt(el.handlers[typeof(event)], len(el.handlers[typeof(event)]), runningInAddEvent)) + old(ncnt(el.handlers[typeof(event)], m, runningInAddEvent))) == event
 //@   loop 1 invariant [pcalls] tracelen(cb) == old(tracelen(cb)) + rangeindex + 1
 //@   loop 2 invariant [ncalls] tracelen(cb) == old(tracelen(cb)) + old(pcnt(el.handlers[typeof(event)], len(el.handlers[typeof(event)]), runningInAddEvent)) + rangeindex + 1
+
+// ---- registration. The ghost trace `reg` records, when the table lock is released, the slot
+// the handler went to and the options it was registered with (as left by the option
+// functions). The handler ends up in that slot with exactly these options and a non-nil
+// callback; the slot was free (unregistered) or is a new last slot; no other slot changes.
+//@ func Register property C14
+//@   opt callbacks setters
+//@   opt noframe true
+//@   requires el != nil && el.handlers != nil && (forall k int :: {opts[k]} 0 <= k && k < len(opts) ==> opts[k] != nil)
+//@   ghost at call Unlock :: emit reg(*i, h.opts.runInAddEvent, h.opts.priority, *t)
+//@   ensures [recorded] tracelen(reg) == old(tracelen(reg)) + 1
+//@   ensures [slot] 0 <= traceat(reg, 0, old(tracelen(reg))) && traceat(reg, 0, old(tracelen(reg))) < len(el.handlers[traceev(reg, 3, old(tracelen(reg)))])
+//@   ensures [registered-with-its-options] el.handlers[traceev(reg, 3, old(tracelen(reg)))][traceat(reg, 0, old(tracelen(reg)))].callback != nil && (el.handlers[traceev(reg, 3, old(tracelen(reg)))][traceat(reg, 0, old(tracelen(reg)))].opts.runInAddEvent ? 1 : 0) == traceat(reg, 1, old(tracelen(reg))) && (el.handlers[traceev(reg, 3, old(tracelen(reg)))][traceat(reg, 0, old(tracelen(reg)))].opts.priority ? 1 : 0) == traceat(reg, 2, old(tracelen(reg)))
+//@   ensures [free-or-new-slot] traceat(reg, 0, old(tracelen(reg))) < old(len(el.handlers[now(traceev(reg, 3, old(tracelen(reg))))])) ? (old(el.handlers[now(traceev(reg, 3, old(tracelen(reg))))][now(traceat(reg, 0, old(tracelen(reg))))].callback) == nil && len(el.handlers[traceev(reg, 3, old(tracelen(reg)))]) == old(len(el.handlers[now(traceev(reg, 3, old(tracelen(reg))))]))) : (traceat(reg, 0, old(tracelen(reg))) == old(len(el.handlers[now(traceev(reg, 3, old(tracelen(reg))))])) && len(el.handlers[traceev(reg, 3, old(tracelen(reg)))]) == old(len(el.handlers[now(traceev(reg, 3, old(tracelen(reg))))])) + 1)
+//@   ensures [others-kept] forall j int :: {el.handlers[traceev(reg, 3, old(tracelen(reg)))][j]} 0 <= j && j < old(len(el.handlers[now(traceev(reg, 3, old(tracelen(reg))))])) && j != traceat(reg, 0, old(tracelen(reg))) ==> el.handlers[traceev(reg, 3, old(tracelen(reg)))][j] == old(el.handlers[now(traceev(reg, 3, old(tracelen(reg))))][now(j)])
